@@ -16,6 +16,7 @@ import (
 	"bytes"
 	"context"
 	"fmt"
+	"hash/crc32"
 	"math/rand"
 	"os"
 	"strings"
@@ -45,6 +46,13 @@ func baseScenarioX(r *rand.Rand, idx string, parallelBias, rich bool) *fullsync.
 	sc.Parallel = []int{1, 2, 8}[r.Intn(3)]
 	sc.PipeSize = []int{1, 16, 1024}[r.Intn(3)]
 	sc.Bisync = r.Intn(4) == 0
+	if sc.Bisync {
+		// replay mode of the bidirectional link and whether an earlier completed snapshot left a
+		// root checkpoint the instance has already looked up (own hash stream: the other draws stay as they were)
+		h := crc32.ChecksumIEEE([]byte("bisync-" + idx))
+		sc.BisyncMode = []string{"sync", "pipeline", "parallel"}[h%3]
+		sc.Prime = (h/3)%2 == 0
+	}
 	opt := rdbx.GenOptions{Version: ver, NowMs: time.Now().UnixMilli(), IDPrefix: "k" + idx + ":", Avoid: []string{"listpacks4"}, NumKeys: 2 + r.Intn(5), NoTTL: r.Intn(2) == 0}
 	if parallelBias {
 		opt.NumKeys = 6 + r.Intn(10)
@@ -301,7 +309,8 @@ func main() {
 				case out.Err == nil:
 					res.Violation("damaged-snapshot-reported-complete|"+kind+"|"+path, fmt.Sprintf("Send returned nil for a snapshot with %s at %d", kind, where), w)
 				case hasCp(out, sc.Offset):
-					res.Violation("failed-replay-recorded-as-complete|"+kind+"|"+path, "the resume position was advanced to the snapshot offset although Send failed", w)
+					w["same_instance_start_point_after_send"] = fmt.Sprintf("%+v", out.AfterSP)
+					res.Violation("failed-replay-recorded-as-complete|"+kind+"|"+path+inProc(out, sc.Offset), "the resume position was advanced to the snapshot offset although Send failed", w)
 				default:
 					res.DistinctAdd(fmt.Sprintf("full|%s|%s|%s", kind, path, errClass(out.Err)))
 				}
@@ -349,7 +358,8 @@ func main() {
 				case out.Err == nil:
 					res.Violation("target-error-swallowed|"+pathName(sc), fmt.Sprintf("the target answered an error to write %d of %d but Send returned nil", k, len(writes)), w)
 				case hasCp(out, sc.Offset):
-					res.Violation("failed-replay-recorded-as-complete|target-error|"+pathName(sc), "the resume position was advanced to the snapshot offset although the target failed a write", w)
+					w["same_instance_start_point_after_send"] = fmt.Sprintf("%+v", out.AfterSP)
+					res.Violation("failed-replay-recorded-as-complete|target-error|"+pathName(sc)+inProc(out, sc.Offset), "the resume position was advanced to the snapshot offset although the target failed a write", w)
 				default:
 					res.DistinctAdd(fmt.Sprintf("tgterr|%s|workers=%d|%s", pathName(sc), sc.Parallel, posClass(k, len(writes))))
 				}
@@ -449,13 +459,29 @@ func errOf(o *fullsync.Outcome) error {
 	return o.Err
 }
 
+// hasCp: the snapshot's offset became the resume position — stored on the target, or answered by
+// the same instance when it is asked for its start point again (RedisInput.Run re-uses the output).
 func hasCp(out *fullsync.Outcome, off int64) bool {
 	for _, v := range out.CpWrites {
 		if v == off {
 			return true
 		}
 	}
-	return false
+	return resumesAt(out, off)
+}
+
+// inProc marks a finding that only the same instance's own start point shows (nothing stored).
+func inProc(out *fullsync.Outcome, off int64) string {
+	for _, v := range out.CpWrites {
+		if v == off {
+			return ""
+		}
+	}
+	return "|in-process-start-point-only"
+}
+
+func resumesAt(out *fullsync.Outcome, off int64) bool {
+	return out.AfterSP != nil && out.AfterSP.Offset == off && out.AfterSP.RunId == out.RunID
 }
 
 func pathName(sc *fullsync.Scenario) string {
